@@ -83,6 +83,22 @@ def ref_bridges(n, edges):
     return out
 
 
+class _Named:
+    """atoms[i] -> the i-th atom in the form the API is given it (AtomLike = Atom | int | str); iteration gives the Atom objects"""
+
+    def __init__(self, atoms, how):
+        self._a, self._how = list(atoms), how
+
+    def __getitem__(self, i):
+        return self._a[i] if self._how == 0 else i if self._how == 1 else self._a[i].label
+
+    def __iter__(self):
+        return iter(self._a)
+
+    def __len__(self):
+        return len(self._a)
+
+
 def build(n, edges, els=None, bts=None, cls="Connectivity", ats=None):
     import molli as ml
     from molli.chem import Atom, BondType, AtomType
@@ -90,6 +106,18 @@ def build(n, edges, els=None, bts=None, cls="Connectivity", ats=None):
     atoms = [Atom(element=(els[i] if els else 6), label=f"a{i}", atype=AtomType(ats[i] if ats else 1)) for i in range(n)]
     if cls == "Connectivity":
         g = ml.Connectivity(atoms)
+    elif cls == "Substructure":
+        # a view over part of a bigger molecule: its atoms' parent is the molecule, their parent indices are shifted
+        extra = [Atom(element=9, label="x0"), Atom(element=17, label="x1")]
+        mol = ml.Molecule(extra + atoms, coords=np.zeros((n + 2, 3)))
+        for k, (u, v) in enumerate(edges):
+            mol.connect(u + 2, v + 2, btype=BondType(bts[k] if bts else 1))
+        mol.connect(0, 1)
+        if n:
+            mol.connect(0, 2)
+        g = mol.substructure(list(range(2, n + 2)))
+        g._vf_keep_parent = mol
+        return g
     elif cls == "Molecule":
         g = ml.Molecule(atoms, coords=np.zeros((n, 3)))
     else:
@@ -99,10 +127,11 @@ def build(n, edges, els=None, bts=None, cls="Connectivity", ats=None):
     return g
 
 
-def check_graph(n, edges, els, bts, cls, fails, where):
-    """all traversal / ring / adjacency queries of one graph"""
+def check_graph(n, edges, els, bts, cls, fails, where, how=0):
+    """all traversal / ring / adjacency queries of one graph; atoms are named to the API as objects (how=0), integer indices (1) or labels (2)"""
     g = build(n, edges, els, bts, cls)
-    atoms = g.atoms
+    atoms = _Named(g.atoms, how)
+    where = where + ["", " [atoms named by index]", " [atoms named by label]"][how]
     ix = {id(a): i for i, a in enumerate(atoms)}
     adj = {i: [] for i in range(n)}
     for (u, v) in edges:
@@ -200,7 +229,8 @@ def check_small(r) -> list[Fail]:
     for mask in masks:
         edges = [p for k, p in enumerate(pairs) if mask >> k & 1]
         sub: list[Fail] = []
-        _, nbr, G = check_graph(n, edges, None, None, "Connectivity", sub, f"n={n} edges={edges}")
+        # class and atom-naming form rotate with the graph number (reproducible from the mask)
+        _, nbr, G = check_graph(n, edges, None, None, ["Connectivity", "Connectivity", "Substructure", "Molecule"][mask % 4], sub, f"n={n} edges={edges}", how=(mask // 4) % 3)
         cnt += 1
         import networkx as nx
 
@@ -258,7 +288,7 @@ def gen_graph(r):
 def check_random(r) -> list[Fail]:
     n, edges, els, bts = gen_graph(r)
     fails: list[Fail] = []
-    check_graph(n, edges, els, bts, r["cls"], fails, f"random n={n}")
+    check_graph(n, edges, els, bts, r["cls"], fails, f"random n={n}", how=r.get("how", 0))
     return _dedup(fails)
 
 
@@ -284,7 +314,8 @@ def _graph_recipe(max_n):
         "extra": st.lists(st.tuples(i, i).map(list), max_size=8),
         "comps": st.lists(i, max_size=3),
         "els": st.lists(i, min_size=4, max_size=40), "bts": st.lists(i, min_size=4, max_size=50),
-        "cls": st.sampled_from(["Connectivity", "Molecule", "ConformerEnsemble"]),
+        "cls": st.sampled_from(["Connectivity", "Molecule", "ConformerEnsemble", "Substructure"]),
+        "how": st.sampled_from([0, 0, 1, 2]),
     })
 
 
